@@ -3,7 +3,13 @@ use super::StorageSlice;
 use super::write_ahead_log::WriteAheadLog;
 use super::write_ahead_log::WriteAheadLogRecord;
 use crate::DbError;
+#[cfg(agdb_verif)]
+use super::verif_fs::File;
+#[cfg(agdb_verif)]
+use super::verif_fs::OpenOptions;
+#[cfg(not(agdb_verif))]
 use std::fs::File;
+#[cfg(not(agdb_verif))]
 use std::fs::OpenOptions;
 use std::io::Read;
 use std::io::Seek;
